@@ -59,3 +59,40 @@ Proof. intro es. rewrite arun_src_eq. apply run_Q. Qed.
 Theorem src_run_A : (zlen ident <= 255)%Z -> forall es, A (arun_src es).
 Proof. intros H es. rewrite arun_src_eq. apply run_A. exact H. Qed.
 End Eq.
+
+(* ---- _Protocol.connection_ready / connection_lost -------------------------------------------------------------- *)
+Section Callbacks.
+Variable ident secret : bytes.
+
+(* an OP_INFO on connection k: ClientProtocol.on_info writes the OP_AUTH for the nonce (translated for C16 by pytrans2), then
+   calls connection_ready - the translated one *)
+Theorem connection_ready_src_eq : forall k body name rand a s,
+  readinfo body = Some (name, rand) -> msgauth rand ident secret = Some a ->
+  on_frame ident secret k 1 body s =
+  Protocol_connection_ready ident secret k
+    (modk k (fun c => mkac (cbuf c) (FAuth rand :: cout c) (cclosing c) (clost c) (caborted c)
+                           (match cnonce c with None => Some rand | n => n end)) s).
+Proof.
+  intros k body name rand a s H1 H2. unfold on_frame. cbn [Z.eqb Pos.eqb]. rewrite H1, H2.
+  unfold Protocol_connection_ready, set_result_connected, set_cur. cbv zeta. cbn [wanted].
+  match goal with |- context [wc_done ?X] => destruct (wc_done X) eqn:W end; cbn [wanted]; try rewrite W; reflexivity.
+Qed.
+
+(* the transport reports the loss of connection k: the model's bookkeeping for the transport, then the translated
+   connection_lost; an InvalidStateError from set_result counts as an escaped exception *)
+Theorem connection_lost_src_eq : forall k s,
+  do_lost k s =
+  let c := getc s k in
+  if (k <? length (conns s))%nat && negb (clost c) then
+    match Protocol_connection_lost k (modk k (fun c => mkac (cbuf c) (cout c) true true (caborted c) (cnonce c)) s) with
+    | (s', true) => bump s'
+    | (s', false) => s'
+    end
+  else s.
+Proof.
+  intros k s. unfold do_lost. cbv zeta.
+  destruct ((k <? length (conns s))%nat && negb (clost (getc s k))); [|reflexivity].
+  unfold Protocol_connection_lost, set_result_closed, set_tr. cbv zeta. cbn [wcl_done pc cst ready].
+  match goal with |- context [wcl_done ?X] => destruct (wcl_done X) eqn:W end; try rewrite W; reflexivity.
+Qed.
+End Callbacks.
